@@ -20,6 +20,15 @@ Definition loop_field_name (f : loop_field) : str :=
   | LLength => s_loop_length
   end.
 
+(* compile_expr 352-369: the instruction of a binary operator *)
+Definition binop_instr (op : binop) : instr :=
+  match op with
+  | BMul => Mul | BDiv => Div | BFloorDiv => FloorDiv | BMod => Mod
+  | BPlus => Plus | BMinus => Minus | BPower => Power
+  | BLt => LessThan | BGt => GreaterThan | BLe => LessThanOrEqual | BGe => GreaterThanOrEqual
+  | BNe => NotEqual | BConcat => StrConcat | BIn => InOp
+  end.
+
 (* compile_kwargs: LoadConst key; value ... ; BuildMap n   (kwargs in list order) *)
 Definition compile_kws (ce : nat -> expr -> list instr) : nat -> list (str * expr) -> list instr :=
   fix go base kw :=
@@ -51,6 +60,17 @@ Fixpoint compile_expr (base : nat) (e : expr) {struct e} : list instr :=
   | EFilter e1 name kw =>
       let c1 := compile_expr base e1 in
       c1 ++ compile_kws compile_expr (base + length c1) kw ++ [BuildMap (length kw); ApplyFilter name]
+  | EBin op a b =>                     (* 414-416: left; right; the operator *)
+      let ca := compile_expr base a in
+      ca ++ compile_expr (base + length ca) b ++ [binop_instr op]
+  | ENeg e1 => compile_expr base e1 ++ [Negative]
+  | ETernary c a b =>                  (* 243-254: cond; PopJumpIfFalse else; true; Jump end; else: false; end: *)
+      let cc := compile_expr base c in
+      let b1 := base + length cc + 1 in
+      let ca := compile_expr b1 a in
+      let b2 := b1 + length ca + 1 in
+      let cb := compile_expr b2 b in
+      cc ++ [PopJumpIfFalse b2] ++ ca ++ [Jump (b2 + length cb)] ++ cb
   end.
 
 Definition compile_kwargs (base : nat) (kw : list (str * expr)) : list instr :=
@@ -137,13 +157,44 @@ Definition kw_map (wd : world) (kws : list (str * value)) : kwargs :=
 
 Definition no_scope : scope := Scope [] [] None [] None.
 
+(* what the interpreter does for a binary operator on (a, b), b on top of the stack
+   (interpreter.rs: math ops, comparisons, NotEqual, StrConcat, In), and for unary minus *)
+Definition binop_result (wd : world) (op : binop) (a b : value) : res value :=
+  match op with
+  | BMul | BDiv | BFloorDiv | BMod | BMinus | BPower =>
+      if negb (is_number a) then RErr ErrRender
+      else if negb (is_number b) then RErr ErrRender
+      else match w_math wd (binop_instr op) a b with ROk c => ROk c | RErr _ => RErr ErrRender end
+  | BPlus =>
+      if is_number a && is_number b
+      then match w_math wd Plus a b with ROk c => ROk c | RErr _ => RErr ErrRender end
+      else RErr ErrRender
+  | BLt | BGt | BLe | BGe =>
+      match w_cmp wd a b with
+      | Some c => ROk (VBool (ord_result (binop_instr op) c))
+      | None => RErr ErrRender
+      end
+  | BNe => ROk (VBool (negb (w_eq wd a b)))
+  | BConcat =>
+      ROk (VStr (match a, b with
+                 | VStr x _, VStr y _ => x ++ y
+                 | _, _ => w_format wd a ++ w_format wd b
+                 end) false)
+  | BIn => match w_contains wd b a with ROk r => ROk (VBool r) | RErr _ => RErr ErrRender end
+  end.
+
+Definition neg_result (wd : world) (a : value) : res value :=
+  match w_negate wd a with ROk b => ROk b | RErr _ => RErr ErrRender end.
+
 Definition builtins_of_world (wd : world) : builtins :=
   {| b_get_attr := w_get_attr wd;
      b_eq := w_eq wd;
      b_test := fun name v => w_test wd name v [];
      b_filter := fun name v kws => w_filter wd name v (kw_map wd kws) no_scope;
      b_format := w_format wd;
-     b_escape := w_escape wd |}.
+     b_escape := w_escape wd;
+     b_binop := binop_result wd;
+     b_neg := neg_result wd |}.
 
 (* ---------- what the parser guarantees about the trees it hands to the compiler ----------
    parser.rs 1585-1615: break/continue only inside a for body and not across a capture
@@ -160,9 +211,10 @@ Fixpoint wf_expr (lex : bool) (e : expr) {struct e} : bool :=
   | EConst _ => true
   | EVar n => ordinary_name n
   | ELoop _ => lex
-  | EAttr e1 _ | ENot e1 | ETest e1 _ => wf_expr lex e1
-  | EAnd a b | EOr a b | EEq a b => wf_expr lex a && wf_expr lex b
+  | EAttr e1 _ | ENot e1 | ETest e1 _ | ENeg e1 => wf_expr lex e1
+  | EAnd a b | EOr a b | EEq a b | EBin _ a b => wf_expr lex a && wf_expr lex b
   | EFilter e1 _ kw => wf_expr lex e1 && forallb (fun ke => wf_expr lex (snd ke)) kw
+  | ETernary c a b => wf_expr lex c && wf_expr lex a && wf_expr lex b
   end.
 
 Definition wf_kws (lex : bool) (kw : list (str * expr)) : bool :=
